@@ -30,7 +30,9 @@ BOUNDS = {"quick": {"set_size": 2, "pair_family": "one atom on the block under t
           "thorough": {"set_size": 2, "pair_family": "all pairs", "chain_depth": 3}}
 CAP_S = {"quick": 170, "thorough": 2400}
 
-TERMS = {"none": None, "jmp": ["jmp", "Z"], "jcc": ["jcc", "Z"], "call": ["call", "G"], "ret": ["ret"], "ijmp": ["ijmp"], "icall": ["icall"]}
+TERMS = {"none": None, "jmp": ["jmp", "Z"], "jcc": ["jcc", "Z"], "call": ["call", "G"], "ret": ["ret"], "ijmp": ["ijmp"], "icall": ["icall"],
+         # a conditional jump whose target is the very block it falls through to (`jne .L; .L:`)
+         "jccnext": ["jcc", "Y"]}
 FOLLOW = ("same", "other", "data", "nothing")
 
 PATCHES = {
@@ -108,7 +110,7 @@ def other_atoms(spec, reduced):
 def term_pairs_off(spec):
     """quick tier: pairs only for the terminators none/jmp/call/ret of the block under test"""
     X = next(b for s in spec["sections"] for b in s["blocks"] if b["n"] == "X")
-    return len(X["i"]) == 3 and X["i"][-1][0] in ("jcc", "ijmp", "icall")
+    return len(X["i"]) == 3 and X["i"][-1][0] in ("ijmp", "icall") or (len(X["i"]) == 3 and X["i"][-1] == ["jcc", "Z"])
 
 
 def gen_sets(spec, tier):
@@ -148,6 +150,8 @@ def tasks(tier):
     t = []
     for term in TERMS:
         for follow in FOLLOW:
+            if term == "jccnext" and follow not in ("same", "other"):
+                continue
             for callers in (0, 1):
                 for functions in (True, False):
                     if not functions and (callers or tier == "quick" and follow in ("other",)):
